@@ -62,7 +62,7 @@ func runC02(c *Ctx) {
 	cfgs := []Cfg{{}, {Cache: true, Index: 1}, {Index: 2, Compress: true}, {Async: 1, Lower: true}}
 	if c.Tier == "thorough" {
 		depth = 5
-		cfgs = append(cfgs, Cfg{Async: 2, Index: 1, MapRev: true}, Cfg{Cache: true, Index: 2, Ext: ".obj"})
+		cfgs = append(cfgs, Cfg{Async: 2, Index: 1, MapRev: true}, Cfg{Cache: true, Index: 2, Ext: ".v1.obj"})
 	}
 	trees := queryTrees(c.Tier == "thorough")
 	for _, cfg := range cfgs {
